@@ -1,4 +1,6 @@
 import SlipVerif.Model.LoadForm
+import Mathlib.Data.List.Perm.Subperm
+import Mathlib.Data.String.Basic
 /-
   C19 — helper lemmas about the snapshot order: worlds (reachability sets of a DAG) and the
   flattening `closeHistory` of a history of definitions. Property theorems: Theorems/C19.lean.
@@ -12,6 +14,81 @@ structure World (ns : List Node) : Prop where
   closed : ∀ a ∈ ns, ∀ b ∈ ns, b.name ∈ a.inherits → b.inherits ⊆ a.inherits
   irrefl : ∀ a ∈ ns, a.name ∉ a.inherits
   names : ∀ a ∈ ns, ∀ b ∈ ns, a.name = b.name → a = b
+
+/-! ### the sort by (number of inherited definitions, name) -/
+
+/-- in a world, a definition inherits strictly more than each of its components -/
+theorem World.inherits_lt {ns : List Node} (w : World ns) {a b : Node} (ha : a ∈ ns) (hb : b ∈ ns)
+    (h : b.name ∈ a.inherits) : b.inherits.length < a.inherits.length := by
+  have hsub : b.inherits ⊆ a.inherits.erase b.name := by
+    intro x hx
+    have hxa : x ∈ a.inherits := w.closed a ha b hb h hx
+    have hne : x ≠ b.name := fun e => w.irrefl b hb (e ▸ hx)
+    exact (List.mem_erase_of_ne hne).mpr hxa
+  have hle := ((w.nodup b hb).subperm hsub).length_le
+  rw [List.length_erase_of_mem h] at hle
+  have hpos : 0 < a.inherits.length := List.length_pos_of_mem h
+  omega
+
+theorem keyLe_total (a b : Node) : keyLe a b = true ∨ keyLe b a = true := by
+  unfold keyLe
+  rcases Nat.lt_trichotomy a.inherits.length b.inherits.length with h | h | h
+  · left; simp [h]
+  · rcases le_total a.name b.name with h' | h'
+    · left; simp [h, h']
+    · right; simp [h, h']
+  · right; simp [h]
+
+theorem keyLe_trans (a b c : Node) (h1 : keyLe a b = true) (h2 : keyLe b c = true) :
+    keyLe a c = true := by
+  unfold keyLe at *
+  simp only [Bool.or_eq_true, Bool.and_eq_true, decide_eq_true_eq, beq_iff_eq] at *
+  rcases h1 with h1 | ⟨h1, h1'⟩ <;> rcases h2 with h2 | ⟨h2, h2'⟩
+  · left; omega
+  · left; omega
+  · left; omega
+  · right; exact ⟨by omega, le_trans h1' h2'⟩
+
+theorem insertBy_perm (le : Node → Node → Bool) (x : Node) (l : List Node) :
+    (insertBy le x l).Perm (x :: l) := by
+  induction l with
+  | nil => simp [insertBy]
+  | cons y ys ih =>
+    unfold insertBy
+    split
+    · exact List.Perm.refl _
+    · exact ((List.Perm.cons y ih).trans (List.Perm.swap x y ys))
+
+theorem sortBy_perm (le : Node → Node → Bool) (l : List Node) : (sortBy le l).Perm l := by
+  induction l with
+  | nil => simp [sortBy]
+  | cons x xs ih => exact (insertBy_perm le x _).trans (List.Perm.cons x ih)
+
+theorem insertBy_sorted (x : Node) (l : List Node) (h : l.Pairwise (fun a b => keyLe a b = true)) :
+    (insertBy keyLe x l).Pairwise (fun a b => keyLe a b = true) := by
+  induction l with
+  | nil => simp [insertBy]
+  | cons y ys ih =>
+    have hy := List.pairwise_cons.mp h
+    unfold insertBy
+    split
+    · rename_i hxy
+      refine List.pairwise_cons.mpr ⟨?_, h⟩
+      intro z hz
+      rcases List.mem_cons.mp hz with rfl | hz
+      · exact hxy
+      · exact keyLe_trans _ _ _ hxy (hy.1 z hz)
+    · rename_i hxy
+      refine List.pairwise_cons.mpr ⟨?_, ih hy.2⟩
+      intro z hz
+      have hz' := (insertBy_perm keyLe x ys).subset hz
+      rcases List.mem_cons.mp hz' with rfl | hz'
+      · rcases keyLe_total z y with h' | h'
+        · exact absurd h' hxy
+        · exact h'
+      · exact hy.1 z hz'
+
+/-! ### flattening a history of definitions -/
 
 theorem mem_addUnique (acc : List String) (x y : String) :
     y ∈ addUnique acc x ↔ y ∈ acc ∨ y = x := by
@@ -204,5 +281,35 @@ theorem closeHistory_inv : ∀ (hist : List (String × List String)) (done : Lis
     simp only [closeHistory]
     refine closeHistory_inv rest _ w' g' ?_
     simpa [List.map_append] using hrest
+
+/-! ### loading flavor definitions in a given order -/
+
+theorem loadFlavors_ok : ∀ (l pre : List Node),
+    (∀ a ∈ l, ∀ x ∈ a.inherits, ∃ b ∈ pre ++ l, b.name = x) →
+    l.Pairwise (fun x y => y.name ∉ x.inherits) →
+    (∀ a ∈ l, a.name ∉ a.inherits) →
+    loadFlavors l (pre.map (·.name)) = .ok ((pre ++ l).map (·.name))
+  | [], pre, _, _, _ => by simp [loadFlavors]
+  | n :: rest, pre, hg, hp, hirr => by
+    have hpc := List.pairwise_cons.mp hp
+    have hall : n.inherits.all (fun i => (pre.map (·.name)).contains i) = true := by
+      rw [List.all_eq_true]
+      intro x hx
+      obtain ⟨b, hb, hbn⟩ := hg n (by simp) x hx
+      rcases List.mem_append.mp hb with hb | hb
+      · simp only [List.contains_iff_mem]
+        exact List.mem_map.mpr ⟨b, hb, hbn⟩
+      · rcases List.mem_cons.mp hb with rfl | hb
+        · exact absurd (hbn ▸ hx) (hirr b (by simp))
+        · exact absurd (hbn ▸ hx) (hpc.1 b hb)
+    simp only [loadFlavors, hall, if_true]
+    have := loadFlavors_ok rest (pre ++ [n])
+      (by
+        intro a ha x hx
+        obtain ⟨b, hb, hbn⟩ := hg a (List.mem_cons_of_mem _ ha) x hx
+        exact ⟨b, by simpa [List.append_assoc] using hb, hbn⟩)
+      hpc.2 (fun a ha => hirr a (List.mem_cons_of_mem _ ha))
+    simpa [List.map_append, List.append_assoc] using this
+
 
 end SlipVerif.LoadForm
